@@ -26,7 +26,7 @@ Import ListNotations.
 From DD Require Import Base.PyStr Base.Value Diff.Tree Diff.DiffModel.
 From DD Require Import Options.OptModel Options.OptProofsBase Options.OptProofsTie Options.OptProofsAtoms
   Options.OptProofsKeys Options.OptProofsLists Options.OptProofsAlt Options.OptProofsSafe Options.OptProofsMono
-  Options.OptProofsRun Options.OptProofsWitness Options.OptDtModel Options.OptProofsDt.
+  Options.OptProofsRun Options.OptProofsBool Options.OptProofsWitness Options.OptDtModel Options.OptProofsDt.
 
 (** ** The option-aware model under the default options IS Diff.DiffModel.diff *)
 Theorem C11_no_options_is_diff_model :
@@ -142,6 +142,22 @@ Theorem C11_monotone_partial :
   run_optF udiff ops c F t1 t2 = Ok ([], []).
 Proof. exact monotone_run. Qed.
 Print Assumptions C11_monotone_partial.
+
+(* the same with all guards as ONE boolean: [mono_ok] = guard of both values, Python-equal keys of equal type
+   (when keys are cleaned), no two different set members with one plain hash text *)
+Theorem C11_monotone_partial_bool :
+  forall F c udiff ops,
+  thr_num c <= thr_den c ->
+  (zip c = true \/ (o_excl F = [] /\ forall p xs ys, tiles (ops p xs ys) 0 0 (length xs) (length ys) = true)) ->
+  (forall p q xs ys, ops p xs ys = ops q xs ys) ->
+  forall t1 t2 r,
+  run_optF udiff ops c no_opts t1 t2 = Ok ([], r) -> mono_ok F c t1 t2 = true ->
+  run_optF udiff ops c F t1 t2 = Ok ([], []).
+Proof. exact monotone_run_bool. Qed.
+Print Assumptions C11_monotone_partial_bool.
+
+Example C11_mono_ok_satisfiable : mono_ok Fmix czip m1 m2 = true.
+Proof. reflexivity. Qed.
 
 Theorem C11_monotone_key_collision_refuted :
   exists a b, wf a = true /\ wf b = true /\ run cdef no_opts a b = Ok ([], []) /\
